@@ -544,11 +544,11 @@ fn rand_op(rng: &mut Rng, pool: &Pool) -> Op {
 pub fn run_ops(args: &Args, sink: &mut Sink, rng: &mut Rng, budget: &mut FullBudget) {
     // input: (drop_len_and_ids, (initial, script, probes))
     let mut s = Stream::new("ops", REQ, "chk_ops_x", "bool * (treemap * list tm_op * list N)", "outcome (treemap * list N * tm_obs)");
-    s.shard = 150;
+    s.shard = 60;
     for (kind, t0, ops) in corpus_ops() {
         push_ops_case(sink, &mut s, kind, &t0, &ops, budget);
     }
-    for i in 0..args.vol(300, 4000) {
+    for i in 0..args.vol(300, 2500) {
         let pool = Pool::rand(rng, (1, 4), (2, 9));
         let t0 = if rng.chance(1, 3) { vec![] } else { pool.spec(rng, false) };
         let n = if i % 5 == 0 { 1 } else { rng.range(1, 7) as usize };
@@ -632,7 +632,7 @@ fn setops_case(sink: &mut Sink, s: &mut Stream, kind: &str, a: &Spec, b: &Spec, 
 
 pub fn run_setops(args: &Args, sink: &mut Sink, rng: &mut Rng, budget: &mut FullBudget) {
     let mut s = Stream::new("setops", REQ, "chk_setops", "treemap * treemap", "treemap * treemap * treemap * treemap * treemap");
-    s.shard = 700;
+    s.shard = 350;
     // corpus
     setops_case(sink, &mut s, "corpus:Full-Partial", &vec![(0, Sel::Full), (1, Sel::Pos(vec![1, 2]))], &vec![(0, Sel::Pos(vec![5])), (1, Sel::Full)], budget);
     // known finding (thorough only: two full bitmaps): {7: Full} - {7: Partial(all 2^32 offsets)} keeps an empty entry
